@@ -2,7 +2,7 @@
     Statements only (model: Model/Store.v, the slab + RwLock discipline of store.rs with
     values and library operations as parameters). *)
 From Coq Require Import List NArith.
-From MOC.Model Require Import Store.
+From MOC.Model Require Import Store Locks.
 Import ListNotations.
 
 (** (1) sequential refinement: every call on a reachable store is a transition of the
@@ -54,9 +54,36 @@ Example C13_nonvacuous :
      RKey nat 2; ROk nat; ROk nat; RErr nat].
 Proof. vm_compute. reflexivity. Qed.
 
+
+(** (3) no deadlock: every store call takes the lock for one phase at a time (read phase, then
+    write phase), never while holding it.  For ANY number of threads running such non-nested
+    programs, ANY interleaving of their steps and of the registrations of blocked writers
+    (std's RwLock is writer-preferring), as long as some thread is unfinished some thread can
+    make progress *)
+Theorem C13_no_deadlock_any_schedule : forall ps l, Forall phases ps ->
+  let c := fold_left exec1 l {| lk := {| readers := []; writer := None; waiting := [] |}; progs := ps |} in
+  unfinished c -> exists t c', step c t = Some c'.
+Proof. exact no_deadlock. Qed.
+
+Theorem C13_reachable_lock_states_consistent : forall ps l, Forall phases ps ->
+  Consistent (fold_left exec1 l {| lk := {| readers := []; writer := None; waiting := [] |}; progs := ps |}).
+Proof. exact reachable_consistent. Qed.
+
+(** the side condition is necessary: a read lock requested again while already held dead-locks
+    against one waiting writer (the state is reachable, some thread is unfinished, nobody can move) *)
+Theorem C13_nested_read_acquisition_deadlocks :
+  (exists c1, step {| lk := {| readers := []; writer := None; waiting := [] |};
+                      progs := [[AcqR; AcqR; RelR; RelR]; [AcqW; RelW]] |} 0 = Some c1 /\
+              register c1 1 = nested_conf) /\
+  unfinished nested_conf /\ forall t, step nested_conf t = None.
+Proof. exact nested_read_deadlocks. Qed.
+
 Print Assumptions C13_sequential_refinement.
 Print Assumptions C13_every_reachable_store_is_well_formed.
 Print Assumptions C13_initial_store_well_formed.
 Print Assumptions C13_handle_denotation_stable.
 Print Assumptions C13_no_reissue_of_live_handle.
 Print Assumptions C13_two_phase_calls_linearize_at_their_write_phase.
+Print Assumptions C13_no_deadlock_any_schedule.
+Print Assumptions C13_reachable_lock_states_consistent.
+Print Assumptions C13_nested_read_acquisition_deadlocks.
